@@ -250,7 +250,10 @@ def gen_hybrid(rng):
         else:
             inv["dagger"] = True
         t = rng.randint(0, len(ops_))
-        ops_[t:t] = [g, inv]
+        mid = []
+        if rng.random() < 0.4:      # symplectic part cancels, displacements on the block's modes remain
+            mid = [dict(cls="Dgate", regs=[m], pars=progs.rand_pars(rng, "Dgate", 2, [], 0.0)) for m in regs]
+        ops_[t:t] = [g] + mid + [inv]
     if rng.random() < 0.3:
         ops_.append(dict(cls="MeasureFock", regs=rng.sample(range(n), rng.randint(1, n)), pars=[]))
     return dict(n=n, ops=ops_)
